@@ -20,7 +20,7 @@ from vlib import core, faults, miniprog, tools
 from vlib.core import Check, Discard, Inconclusive, Violation
 
 STYLES = ["auth-fds", "legacy-fds", "fifo"]
-OUTCOMES = ["success", "link-error"] + [f"{k}@{p}" for k in ("error", "panic")
+OUTCOMES = ["success", "link-error", "save-dir-skip-linking"] + [f"{k}@{p}" for k in ("error", "panic")
                                         for p in ("inputs-loaded", "symbols-resolved", "layout-done", "sections-written",
                                                   "output-written")]
 PAUSE_POINTS = ["inputs-loaded", "symbols-resolved", "layout-done", "output-created"]
@@ -75,7 +75,15 @@ class C35(Check):
             "explicit_threads": st.sampled_from([None, None, None, 1, 3]),
             "pause": st.sampled_from(PAUSE_POINTS),
             "jflag": st.sampled_from(["-j", "", "-j8 "]),
+            # A previous output at the same path (the relink case: wild then renames/unlinks the old file).
+            "prior_output": st.booleans(),
         })
+
+    def excluded_by_construction(self, case):
+        # Known finding: process::exit(0) in save_dir.rs while tokens are held.
+        if case["outcome"] == "save-dir-skip-linking" and not case["explicit_threads"] and case["n"] - min(case["pretaken"], case["n"]) > 0:
+            return "tokens-not-conserved:leak:save-dir-skip-linking"
+        return None
 
     def run_case(self, case, ctx):
         d = ctx.dir
@@ -106,7 +114,12 @@ class C35(Check):
                 os.write(wfd, before)
             avail = len(before)
 
-            cmd = [tools.linker_path("wild"), *args, "-o", "out"]
+            if case.get("prior_output"):
+                tools.must(tools.link("wild", [*args, "-o", "out"], cwd=d), "creating the prior output")
+            # strace counts every thread ever created (clone with CLONE_THREAD) in wild's process tree, so
+            # short-lived helper threads outside the pool are seen too.
+            trace = f"{d}/clone.trace"
+            cmd = ["strace", "-f", "-q", "-e", "trace=clone,clone3", "-o", trace, tools.linker_path("wild"), *args, "-o", "out"]
             if not case["fork"]:
                 cmd.append("--no-fork")
             if case["explicit_threads"]:
@@ -115,6 +128,9 @@ class C35(Check):
             outcome = case["outcome"]
             if outcome == "link-error":
                 cmd += ["--undefined=verif_missing", "--require-defined=verif_missing"]
+            elif outcome == "save-dir-skip-linking":
+                env["WILD_SAVE_DIR"] = f"{d}/saved"
+                env["WILD_SAVE_SKIP_LINKING"] = "1"
             elif "@" in outcome:
                 kind, point = outcome.split("@")
                 env["WILD_VERIF_CRASH"] = f"{point}:{kind}"
@@ -125,12 +141,15 @@ class C35(Check):
             def on_started(p):
                 if not pz.wait_paused(timeout=60, alive=lambda: p.poll() is None):
                     return
-                # The paused process is the forked worker (fork mode) or wild itself.
+                # The paused process is the forked worker (fork mode) or wild itself; p is strace.
                 worker = p.pid
-                if case["fork"]:
-                    kids = faults.children_of(p.pid)
-                    if kids:
-                        worker = kids[0]
+                kids = faults.children_of(p.pid)
+                if kids:
+                    worker = kids[0]
+                    if case["fork"]:
+                        kids2 = faults.children_of(worker)
+                        if kids2:
+                            worker = kids2[0]
                 now = drain(rfd)
                 if now:
                     os.write(wfd, now)
@@ -152,6 +171,17 @@ class C35(Check):
                                 f"jobserver held {len(before)} tokens before the link and {len(after)} after wild and all descendants "
                                 f"exited (outcome {outcome}, rc={run.rc}, fork={case['fork']}, style={case['style']})",
                                 {"before": before.decode(), "after": after.decode(), "stderr": run.err[-300:]})
+            created = None
+            try:
+                created = sum(1 for line in open(trace) if "CLONE_THREAD" in line and "= -1" not in line)
+            except OSError:
+                pass
+            if "taken" in measured and created is not None and not case["explicit_threads"]:
+                info["classes"].append("prior-output" if case.get("prior_output") else "fresh-output")
+                if created > measured["taken"] + 1:
+                    raise Violation("too-many-threads-created",
+                                    f"wild created {created} threads in total having acquired {measured['taken']} tokens "
+                                    f"(bound: tokens+1 pool threads; prior_output={case.get('prior_output')}, kind={case['prog']['kind']})")
             if "taken" in measured and measured["threads"] is not None:
                 taken, threads = measured["taken"], measured["threads"]
                 pool = max(1, threads - 1)
